@@ -30,6 +30,18 @@ def state_writes(evs):
     return out
 
 
+def flat_fields(agg):
+    """field name -> value of a struct literal, looking through private grouping structs (`slot: Slot { sig, data }`)"""
+    d = {}
+    for n, v in zip(agg[4], agg[3]):
+        d[n] = v
+        if isinstance(v, tuple) and v and v[0] == 'agg' and len(v) > 4 and v[4] and not v[1].startswith(('std::', 'core::', 'alloc::')) \
+                and v[1] not in ('signal::Signal', 'pointer::KanalPtr', 'future::FutureState'):
+            for k2, v2 in flat_fields(v).items():
+                d.setdefault(k2, v2)
+    return d
+
+
 def first_arm(evs):
     """which state the poll found the future in: the first `match self.state` edge, or `state.is_done()` / `is_waiting()`
     answering true"""
@@ -302,6 +314,9 @@ def f5(ctx):
                 if s['k'] == 'assign' and s['rv']['k'] == 'agg' and s['rv'].get('ak') == 'adt' and canon(s['rv']['name']) == 'future::FutureState' and s['rv']['variant'] == 'Zero':
                     ctx.oblige(1)
                     ctx.instance('%s sets FutureState::Zero' % kk)
+                    ret_ty = bb.locals[0]['ty'] if bb.locals else ''
+                    if 'ReceiveFuture<' in ret_ty or 'SendFuture<' in ret_ty:
+                        continue  # a constructor: the Zero goes into the struct literal it returns, no existing future is reset
                     if not fam.allowed_for(ctx, kk, {key, "future::SendFuture::<'a, T>::new", "future::ReceiveFuture::<'a, T>::new_ref"}):
                         ctx.violate(kk, None, 'future state reset to Zero outside the constructors / the stream re-arm', at=s.get('at'), sig='zero-writer')
     for p, evs in all_paths(ctx, b):
@@ -529,7 +544,7 @@ def f8(ctx):
             if not (r is not None and r[0] == 'agg' and r[1].endswith('ReceiveFuture')):
                 ctx.violate(key, p, 'new_ref does not build a ReceiveFuture')
                 continue
-            f = dict(zip(r[4], r[3]))
+            f = flat_fields(r)
             if not (f.get('state', ('x',))[0] == 'agg' and f['state'][2] == 'Zero'):
                 ctx.violate(key, p, 'a new receive future does not start in state Zero')
             if not is_const(f.get('is_stream', ('x',)), 0):
@@ -568,6 +583,13 @@ def f8(ctx):
                 base = inner[1]
                 if not (base[0] == 'call' and base[2].endswith('ReceiveFuture::new_ref')):
                     ok = False
+            if inner is not None and inner[0] == 'agg' and inner[1].endswith('ReceiveFuture'):
+                # the constructor chain spliced down to the struct literal
+                ff = flat_fields(inner)
+                st_ = ff.get('state')
+                sg_ = ff.get('sig')
+                ok = (st_ is not None and st_[0] == 'agg' and st_[2] == 'Zero' and is_const(ff.get('is_stream', ('x',)), 1)
+                      and sg_ is not None and sg_[0] == 'call' and sg_[2] == 'signal::Signal::new_async')
             if not ok:
                 ctx.violate(key, p, 'the stream\'s future is not a fresh receive future marked is_stream=true (the second item would panic "polled after result is already returned")')
 
